@@ -448,14 +448,14 @@ def run_check(pid, tier, seed, cfg, a, t0, log):
         write_evidence(pid, tier, seed, cfg, obligations, discharged, [], stats, t0, 1, problems + ["harness run failed"], leancheck, {})
         print("VIOLATION property=%s replay=%s no-failing-input-found" % (pid, rp))
         return 1
-    summary = summarise(files)
+    summary = summarise(files, pid)
     return verdict(pid, tier, seed, cfg, obligations, discharged, problems, summary, stats, t0, leancheck, log)
 
 
-def summarise(files):
+def summarise(files, pid=None):
     ops, out = files
     s = {"cases": 0, "ops": 0, "distinct": set(), "nontrivial": 0, "viol": [], "disagree": [], "samples": [],
-         "spec_model_false": 0, "known_hits": {}}
+         "spec_model_false": 0, "known_hits": {}, "known_cases": {}}
     for c in zip_results(ops, out):
         s["cases"] += 1
         s["ops"] += len(c.ops)
@@ -468,8 +468,15 @@ def summarise(files):
             s["samples"].append({"id": c.id, "variant": c.variant, "ops": c.ops[:12], "impl_obs": c.impl[:12]})
         if not all(c.specM):
             s["spec_model_false"] += 1
-        if c.violates() and len(s["viol"]) < 200:
-            s["viol"].append(c)
+        if c.violates():
+            # recorded findings are classified at once (they may be many); only NEW violations are capped
+            k = classify_known(pid, c) if pid else None
+            if k:
+                for key in k:
+                    s["known_cases"].setdefault(key, c)
+                    s["known_hits"][key] = s["known_hits"].get(key, 0) + 1
+            elif len(s["viol"]) < 200:
+                s["viol"].append(c)
         elif c.disagrees() and len(s["disagree"]) < 50:
             s["disagree"].append(c)
     if not s["samples"]:
@@ -490,7 +497,7 @@ def classify_known(pid, c):
 
 
 def verdict(pid, tier, seed, cfg, obligations, discharged, problems, s, stats, t0, leancheck, log):
-    new_viol, known_seen = [], {}
+    new_viol, known_seen = [], dict(s.get("known_cases", {}))
     for c in s["viol"]:
         k = classify_known(pid, c)
         if k:
@@ -501,7 +508,7 @@ def verdict(pid, tier, seed, cfg, obligations, discharged, problems, s, stats, t
     for key in sorted(known_seen):
         desc = next((f.get("what", "") for f in known_findings() if f["key"] == key), "")
         print("KNOWN-FINDING: property=%s %s [%s]" % (pid, desc, key))
-    extra = {"known_findings_seen": sorted(known_seen)}
+    extra = {"known_findings_seen": sorted(known_seen), "known_finding_cases": s.get("known_hits", {})}
 
     def pred_violates(r):
         return r.violates() and classify_known(pid, r) is None
